@@ -7,7 +7,7 @@ use std::sync::{Arc, Mutex};
 use verif_harness::util::{catch, quiet_panics, CaseStream, Results, Rng};
 use verif_harness::workspace;
 
-const PRELUDE: &str = "pub type T { T(a: Int, b: String) }\npub type Box(x) { Box(inner: x) }\nfn id(x) { x }\nfn apply(x: a, f: fn(a) -> b) -> b { f(x) }\nfn map(l: List(a), f: fn(a) -> b) -> List(b) { case l { [] -> [] [h, ..t] -> [f(h), ..map(t, f)] } }\nfn add(a: Int, b: Int) -> Int { a + b }\nfn mk_ok(x: a, e: b) -> Result(a, b) { Ok(x) }\nfn mk_err(x: a, e: b) -> Result(a, b) { Error(e) }\npub type M { M(Int, key: String, value: Float) }\nfn wrap(item) { item }\nfn item() { wrap(1) }\npub type Fx(r) { Fx(run: fn(Int) -> r) }\nfn ping(value, count) { let boxed = #(value, []) case count { 0 -> value _ -> pong(value, count - 1) } }\nfn pong(item, left) { let wrapped = #(item, []) case left { 0 -> item _ -> ping(item, left - 1) } }\n";
+const PRELUDE: &str = "pub type T { T(a: Int, b: String) }\npub type Box(x) { Box(inner: x) }\nfn id(x) { x }\nfn apply(x: a, f: fn(a) -> b) -> b { f(x) }\nfn map(l: List(a), f: fn(a) -> b) -> List(b) { case l { [] -> [] [h, ..t] -> [f(h), ..map(t, f)] } }\nfn add(a: Int, b: Int) -> Int { a + b }\nfn mk_ok(x: a, e: b) -> Result(a, b) { Ok(x) }\nfn mk_err(x: a, e: b) -> Result(a, b) { Error(e) }\npub type M { M(Int, key: String, value: Float) }\nfn wrap(item) { item }\nfn item() { wrap(1) }\npub type Fx(r) { Fx(run: fn(Int) -> r) }\nfn ping(value, count) { let boxed = #(value, []) case count { 0 -> value _ -> pong(value, count - 1) } }\nfn pong(item, left) { let wrapped = #(item, []) case left { 0 -> item _ -> ping(item, left - 1) } }\nfn countdown(n, label) { case n { 0 -> label _ -> countdown(n - 1, \"tick\") } }\npub type BitArray { BitArray(bits: Int) }\nfn bits_of(x: BitArray) { let got = x.bits got }\n";
 /// the library module `pal`, imported by the generated module and used qualified
 const HEADER: &str = "import pal.{Shade}\n";
 const HUE: &str = "import base\npub fn h() { base.z() }\n";
@@ -198,8 +198,8 @@ fn main() {
                         let exp: Option<&str> = if is_def || is_label || is_field { None }
                             else if s == "pal" && next == "." { Some("Module") }
                             else if qualified { if first.is_ascii_uppercase() { Some("Constructor") } else { Some("Function") } }
-                            else if ["id", "apply", "map", "add", "mk_ok", "mk_err", "wrap", "ping", "pong"].contains(&s.as_str()) || (s.len() > 1 && s.starts_with('g') && s[1..].chars().all(|c| c.is_ascii_digit())) { Some("Function") }
-                            else if s == "T" || s == "Box" || s == "M" || s == "Fx" || s == "Shade" { Some("Constructor") }
+                            else if ["id", "apply", "map", "add", "mk_ok", "mk_err", "wrap", "ping", "pong", "countdown", "bits_of"].contains(&s.as_str()) || (s.len() > 1 && s.starts_with('g') && s[1..].chars().all(|c| c.is_ascii_digit())) { Some("Function") }
+                            else if s == "T" || s == "Box" || s == "M" || s == "Fx" || s == "Shade" || s == "BitArray" { Some("Constructor") }
                             else if let Some(ty) = binder_ty.get(s.as_str()) { if ty.starts_with("fn(") { Some("Function") } else { None } }
                             else { None };
                         let got = hl.iter().find(|h| usize::from(h.range.start()) == *off && usize::from(h.range.end()) == off + s.len()).map(|h| format!("{:?}", h.tag));
